@@ -477,7 +477,8 @@ theorem lowerE_op {ρ : Rho} {o : Op} {code : Nat} {l r : Expr} {k : Nat} {cl cr
     (ho : pureOpcode o = some code) (hl : lowerE ρ l k = some cl) (hr : lowerE ρ r cl.k = some cr) :
     lowerE ρ (.sexp o l r) k =
       some ⟨cl.instrs ++ cr.instrs ++ [⟨code, vTmp cr.k, cl.reg, cr.reg⟩], vTmp cr.k, cr.k + 1⟩ := by
-  rw [lowerE.eq_5 _ _ _ _ _ (fun x hb _ => by subst hb; cases ho), ho, hl]
+  rw [lowerE.eq_8 _ _ _ _ _ (fun x _ _ hb _ _ => by subst hb; cases ho) (fun x _ _ hb _ _ => by subst hb; cases ho)
+    (fun x _ _ hb _ _ => by subst hb; cases ho) (fun x hb _ => by subst hb; cases ho), ho, hl]
   simp only [hr]
 
 /-- a value expression whose result register is the placeholder has no code (it is then an atom bound to it:
@@ -489,7 +490,14 @@ theorem value_none_instrs {e : Expr} (hp : valueE e = true) {sc : Scope} {c : CE
   | none => cases hp
   | atom p => exact (compileAtom_basic h).1
   | sexp o le re =>
-    rcases valueE_sexp_cases hp with ⟨x, rfl, rfl, -, -⟩ | ⟨code, ho, -, -, -⟩
+    rcases valueE_sexp_cases hp with ⟨x, rfl, rfl, -, -⟩ | ⟨x, op, a, b, gcode, rfl, rfl, rfl, -⟩ | ⟨code, ho, -, -, -⟩
+    · exfalso
+      unfold compileExpr at h
+      obtain ⟨l, hl, h⟩ := Out.bind_eq_ok.mp h
+      obtain ⟨r, hr', h⟩ := Out.bind_eq_ok.mp h
+      simp only [combine] at h
+      obtain ⟨left', sc'', -, hbe⟩ := combineBind_ok_split h
+      exact bindEmit_reg_ne_none hbe hn
     · exfalso
       unfold compileExpr at h
       obtain ⟨l, hl, h⟩ := Out.bind_eq_ok.mp h
@@ -526,7 +534,7 @@ theorem compileExpr_lower {scF : Scope} {e : Expr} (hp : valueE e = true) {sc : 
     (hser : ∀ i ∈ c.instrs, SerI i) (hreg : SerR c.reg) (hk : sc.tmp.length ≤ 8) :
     lowerE (rhoOf scF) e sc.tmp.length = some ⟨c.instrs.map toVInstr, toVReg c.reg, c.sc.tmp.length⟩ ∧
     c.sc.tmp.length ≤ 8 := by
-  induction e generalizing sc c with
+  induction e using Expr.ind2 generalizing sc c with
   | cmd _ => cases hp
   | none => cases hp
   | atom p =>
@@ -534,8 +542,9 @@ theorem compileExpr_lower {scF : Scope} {e : Expr} (hp : valueE e = true) {sc : 
     obtain ⟨h1, h2⟩ := compileAtom_basic h
     rw [compileAtom_lower h hr hreg, h1, h2]
     exact ⟨rfl, hk⟩
-  | sexp o le re ihl ihr =>
-    rcases valueE_sexp_cases hp with ⟨x, rfl, rfl, -, hvr⟩ | ⟨code, ho, hpl, hpr, -⟩
+  | sexp o le re ihl ihr ihsub =>
+    rcases valueE_sexp_cases hp with ⟨x, rfl, rfl, -, hvr⟩ |
+      ⟨x, op, a, b, gcode, rfl, rfl, rfl, hgc, -, hva, hvb, -⟩ | ⟨code, ho, hpl, hpr, -⟩
     · -- a nested bind
       obtain ⟨l, r, left', hl, hr', lt, lg, hsl, hlr, hrc, htmp, hbe, hslot⟩ := bind_decomp hsn h
       have rr : Reach False r.sc scF := hrc.trans hr
@@ -549,9 +558,48 @@ theorem compileExpr_lower {scF : Scope} {e : Expr} (hp : valueE e = true) {sc : 
         (by rw [lt]; exact hk)
       rw [lt] at er
       refine ⟨?_, by rw [htmp]; exact kr⟩
-      rw [lowerE, hρ, er]
+      obtain ⟨n1, n2, n3⟩ := valueE_not_cond hvr
+      rw [lowerE.eq_7 _ _ _ _ n1 n2 n3, hρ, er]
       simp only [List.map_append, List.map_cons, List.map_nil, toVInstr, toVReg_of_slot hslot, htmp]
       rfl
+    · -- a nested guarded bind: the operands, then the conditional / ewma instruction, whose placeholder result the
+      -- bind replaces by the register of `x`
+      obtain ⟨iha, ihb⟩ := ihsub op a b rfl
+      have ho : op = .if ∨ op = .notIf ∨ op = .ewma := by
+        rcases condCode_cases hgc with ⟨h, _⟩ | ⟨h, _⟩ | ⟨h, _⟩ <;> simp [h]
+      have hopn : opNat op = gcode := by
+        rcases condCode_cases hgc with ⟨rfl, rfl⟩ | ⟨rfl, rfl⟩ | ⟨rfl, rfl⟩ <;> rfl
+      obtain ⟨l, r, left', hl, hr', lt, lg, hsl, hlr, hrc, htmp, hbe, hslot⟩ := bind_decomp hsn h
+      have rr : Reach False r.sc scF := hrc.trans hr
+      have rl : Reach False l.sc scF := hlr.trans rr
+      have hρ : rhoOf scF x = some (toVReg left') := by
+        rw [toVReg_of_slot hslot]; exact rhoOf_of_reach rl lg
+      unfold compileExpr at hr'
+      obtain ⟨ca, hca, hr'⟩ := Out.bind_eq_ok.mp hr'
+      obtain ⟨cb, hcb, hr'⟩ := Out.bind_eq_ok.mp hr'
+      have := combine_cond ho hr'
+      subst this
+      simp only at hbe rr htmp
+      generalize c.sc = scc at hbe htmp
+      unfold bindEmit at hbe
+      rw [if_pos rfl] at hbe
+      split at hbe
+      · rw [List.getLast?_concat] at hbe
+        simp only [if_true] at hbe
+        cases hbe
+        rw [setLastRes_append] at hser
+        simp only at hser hreg
+        have hlast := hser _ (List.mem_append_right _ (List.mem_singleton.mpr rfl))
+        have ra : Reach False ca.sc scF := (compileExpr_reach (F := False) (fun f => f.elim) hcb).1.trans rr
+        obtain ⟨ea, ka⟩ := iha hva hsl hca ra
+          (fun i hi => hser i (List.mem_append_left _ (List.mem_append_left _ hi))) hlast.2.1 (by rw [lt]; exact hk)
+        obtain ⟨eb, kb⟩ := ihb hvb (compileExpr_selfNamed hsl hca) hcb rr
+          (fun i hi => hser i (List.mem_append_left _ (List.mem_append_right _ hi))) hlast.2.2 ka
+        rw [lt] at ea
+        refine ⟨?_, by simp only [htmp]; exact kb⟩
+        rw [lowerE_guard hgc, setLastRes_append]
+        simp only [hρ, ea, eb, htmp, hopn, List.map_append, List.map_cons, List.map_nil, toVInstr]
+      · cases hbe
     · -- an operator node
       unfold compileExpr at h
       obtain ⟨l, hl, h⟩ := Out.bind_eq_ok.mp h
